@@ -2090,6 +2090,75 @@ func ruleR64(c *Ctx) {
 				}
 			}
 			if loop == nil {
+				// the creation was extracted into a helper: a resource that arrives as a parameter is per
+				// instance only if every caller that sits in a loop creates it inside its iteration
+				root := f.Root()
+				if root.Obj == nil {
+					return true
+				}
+				sig := root.Obj.Type().(*types.Signature)
+				var sharedP []string
+				for i := 0; i < sig.Params().Len(); i++ {
+					pv := sig.Params().At(i)
+					switch pv.Type().Underlying().(type) {
+					case *types.Pointer, *types.Interface, *types.Map, *types.Chan:
+					default:
+						continue
+					}
+					if isContextType(pv.Type()) {
+						continue
+					}
+					used := false
+					for _, a := range call.Args {
+						ast.Inspect(a, func(z ast.Node) bool {
+							if id, ok := z.(*ast.Ident); ok && in.Uses[id] == types.Object(pv) {
+								used = true
+							}
+							return true
+						})
+					}
+					if !used {
+						continue
+					}
+					for _, h := range p.Funcs {
+						if h.Body == nil || h.Pkg != f.Pkg {
+							continue
+						}
+						hin := info(h)
+						inspectNoLit(h.Body, func(m ast.Node) bool {
+							cl, ok := m.(*ast.CallExpr)
+							if !ok || callee(hin, cl) != root.Obj || i >= len(cl.Args) {
+								return true
+							}
+							hl := innermostLoop(p, cl)
+							if hl == nil {
+								return true
+							}
+							ast.Inspect(cl.Args[i], func(z ast.Node) bool {
+								id, ok := z.(*ast.Ident)
+								if !ok {
+									return true
+								}
+								v, ok := hin.Uses[id].(*types.Var)
+								if !ok || v.IsField() || v.Pkg() == nil {
+									return true
+								}
+								if v.Pos() >= hl.Pos() && v.Pos() <= hl.End() {
+									return true
+								}
+								if v.Pos() < h.Body.Pos() || v.Pos() > h.Body.End() {
+									return true
+								}
+								sharedP = append(sharedP, v.Name()+" (declared outside the loop of "+h.QName()+", passed as "+pv.Name()+")")
+								return true
+							})
+							return true
+						})
+					}
+				}
+				if len(sharedP) > 0 {
+					c.Bad(f, call, "instance created per message by "+fn.Name(), what, "handed to every instance: "+strings.Join(sharedP, ", "))
+				}
 				return true
 			}
 			var shared []string
